@@ -247,31 +247,14 @@ unsafe fn drop_cycle<T>(cycle: HashMap<Link<T>, usize>) {
         // deallocate. This allows us to bust the cycle detection by clearing
         // all links.
         let rcbox = ptr.as_ptr();
-        let cycle_strong_refs = {
-            let mut links = (*rcbox).links().borrow_mut();
-            links
-                .extract_if(|link, _| {
-                    if let Kind::Forward | Kind::Loopback = link.kind() {
-                        cycle.contains_key(link)
-                    } else {
-                        false
-                    }
-                })
-                .map(|(link, count)| {
-                    if let Kind::Forward = link.kind() {
-                        count
-                    } else {
-                        0
-                    }
-                })
-                .sum::<usize>()
-        };
+        (*rcbox).links().borrow_mut().clear();
 
         // To be in a cycle, at least one `value` field in an `RcBox` in the
-        // cycle holds a strong reference to `this`. Mark all nodes in the cycle
-        // as dead so when we deallocate them via the `value` pointer we don't
-        // get a double-free.
-        for _ in 0..cycle_strong_refs.min((*rcbox).strong()) {
+        // cycle holds a strong reference to `this`. `refcount` is the number of
+        // strong references to `this` owned by members of the cycle. Mark all
+        // nodes in the cycle as dead so when we deallocate them via the `value`
+        // pointer we don't get a double-free.
+        for _ in 0..refcount.min((*rcbox).strong()) {
             (*rcbox).dec_strong();
         }
     }
